@@ -460,6 +460,53 @@ example : ((allTargets { funcs := [({ name := "Build", isError := false, isConte
             fun g => lower g.targetName).Nodup := by decide
 
 open MageModel.Gen in
+/-- **The aliases `-h <target>` shows are aliases of that target**: each of them, typed on the command line, runs the
+target it is listed under (D32 was the failure of this) — for packages the duplicate check accepts: runnable names
+pairwise different ignoring case, alias keys included. -/
+theorem help_alias_runs (info : PkgInfo) (f : Function) (a : String) (hf : f ∈ allTargets info)
+    (ha : a ∈ helpAliases info f)
+    (hnames : ((allTargets info).map fun g => lower g.targetName).Nodup)
+    (hkeys : (info.aliases.map fun x => lower x.1).Nodup) :
+    resolve info a = some f := by
+  unfold helpAliases at ha
+  obtain ⟨⟨k, g⟩, hmem, hk⟩ := List.mem_map.mp ha
+  simp only [List.mem_filter, beq_iff_eq] at hmem
+  simp only at hk; subst hk
+  obtain ⟨hin, htn⟩ := hmem
+  generalize hkey : (fun g : Function => lower g.targetName) = key at hnames
+  have hkf : ∀ g, key g = lower g.targetName := fun g => by rw [← hkey]
+  generalize hak : (fun x : String × Function => lower x.1) = akey at hkeys
+  have hakf : ∀ x, akey x = lower x.1 := fun x => by rw [← hak]
+  generalize hlk : lower k = lk
+  generalize hltn : lower f.targetName = ltn
+  have hmain : (allTargets info).find? (fun t => lower t.targetName == ltn) = some f := by
+    cases hfind : (allTargets info).find? (fun t => lower t.targetName == ltn) with
+    | none =>
+      rw [List.find?_eq_none] at hfind
+      have := hfind f hf
+      simp [hltn] at this
+    | some t =>
+      have ht := List.mem_of_find?_eq_some hfind
+      have he : lower t.targetName = ltn := by simpa using List.find?_some hfind
+      have he' : key t = key f := by rw [hkf, hkf, he, hltn]
+      exact congrArg some (eq_of_nodup_map key (allTargets info) hnames t f ht hf he')
+  unfold resolve
+  simp only []
+  split
+  · next k' g' hfa =>
+    have hmem' := List.mem_of_find?_eq_some hfa
+    have hp : lower k' = lower k := by simpa using List.find?_some hfa
+    have hp' : akey (k', g') = akey (k, g) := by rw [hakf, hakf]; exact hp
+    have hsame : (k', g') = (k, g) := eq_of_nodup_map akey info.aliases hkeys (k', g') (k, g) hmem' hin hp'
+    have hg : g' = g := by cases hsame; rfl
+    rw [hg, htn, hltn]
+    exact hmain
+  · next hnone =>
+    rw [List.find?_eq_none] at hnone
+    have := hnone (k, g) hin
+    simp at this
+
+open MageModel.Gen in
 /-- … and the listing contains a row for every target: with `listed_rows_exact` (Props/C18) the rows of `-l` are the
 targets, one each; this is the key of `f`'s row -/
 theorem listed_key_of_target (info : PkgInfo) (f : Function) (hf : f ∈ allTargets info) :
